@@ -19,7 +19,7 @@ import (
 	f1testing "github.com/form3tech-oss/f1/v2/pkg/f1/testing"
 )
 
-var behaviours = []string{"pass", "Fail", "FailNow", "panic"}
+var behaviours = []string{"pass", "Fail", "FailNow", "panic", "Require-assertion", "FailNow-in-timed-stage", "panic-in-timed-stage"}
 
 func act(t *f1testing.T, b string) {
 	switch b {
@@ -29,17 +29,26 @@ func act(t *f1testing.T, b string) {
 		t.FailNow()
 	case "panic":
 		panic("component panics")
+	case "Require-assertion":
+		t.Require().True(false)
+	case "FailNow-in-timed-stage":
+		t.Time("stage", func() { t.FailNow() })
+	case "panic-in-timed-stage":
+		t.Time("stage", func() { panic("component panics") })
 	}
 }
 
-func stops(b string) bool { return b == "FailNow" || b == "panic" }
+func stops(b string) bool { return b != "pass" && b != "Fail" }
 
-func suite() hlib.Suite {
-	return hlib.Suite{Name: "combine/1-3-components/all-behaviours", Run: func(r *hlib.Rec) {
-		for n := 1; n <= 3; n++ {
+// suite: all programs of minN..maxN components over the first nb behaviours; every
+// program is set up and run twice from the same combined scenario value (two
+// runs in one process: `ExecuteWithArgs` called twice).
+func suite(minN, maxN, nb int) hlib.Suite {
+	return hlib.Suite{Name: fmt.Sprintf("combine/%d-%d-components/%d-behaviours/two-runs-of-the-same-value", minN, maxN, nb), Run: func(r *hlib.Rec) {
+		for n := minN; n <= maxN; n++ {
 			total := 1
 			for i := 0; i < 2*n; i++ {
-				total *= 4
+				total *= nb
 			}
 			for code := 0; code < total; code++ {
 				if !r.Mine() {
@@ -49,12 +58,12 @@ func suite() hlib.Suite {
 				setupB, iterB := make([]string, n), make([]string, n)
 				c := code
 				for i := 0; i < n; i++ {
-					setupB[i] = behaviours[c%4]
-					c /= 4
+					setupB[i] = behaviours[c%nb]
+					c /= nb
 				}
 				for i := 0; i < n; i++ {
-					iterB[i] = behaviours[c%4]
-					c /= 4
+					iterB[i] = behaviours[c%nb]
+					c /= nb
 				}
 				input := fmt.Sprintf("setups=%v iterations=%v", setupB, iterB)
 				r.SampleCase(input)
@@ -78,71 +87,77 @@ func suite() hlib.Suite {
 							}
 							log = append(log, fmt.Sprintf("%s%d@%s", h, i, t.Iteration))
 							act(t, iterB[i])
+							log = append(log, fmt.Sprintf("returned%d", i))
 						}
 					}
 				}
-				stats := &progress.Stats{}
-				m := metrics.NewInstance(prometheus.NewRegistry(), false, nil)
 				sc := &scenarios.Scenario{Name: "s", ScenarioFn: f1.CombineScenarios(comps...)}
-				as := workers.NewActiveScenario(sc, m, stats, hlib.DiscardLogger(), hlib.DiscardLogrus())
-				var failedIter []bool
-				panicked, pv := hlib.Catch(func() {
-					as.Setup()
-					if as.Failed() {
-						return
-					}
-					st := as.VerifNewIterationState()
-					for it := 1; it <= 2; it++ {
-						st.VerifT().Reset(fmt.Sprint(it))
-						before := stats.Total().FailedIterationDurations.Count
-						as.Run(st)
-						failedIter = append(failedIter, stats.Total().FailedIterationDurations.Count > before)
-					}
-				})
-				if panicked {
-					r.Fail("C20/escapes", "panic", fmt.Sprintf("a component's panic escaped: %v", pv), input)
-					continue
-				}
-				// reference
-				var want []string
-				setupFailed := false
-				for i := 0; i < n; i++ {
-					want = append(want, fmt.Sprintf("setup%d", i))
-					if setupB[i] != "pass" {
-						setupFailed = true
-					}
-					if stops(setupB[i]) {
-						break
-					}
-				}
-				var wantFailed []bool
-				if !setupFailed {
-					for it := 1; it <= 2; it++ {
-						f := false
-						for i := 0; i < n; i++ {
-							want = append(want, fmt.Sprintf("iter%d@%d", i, it))
-							if iterB[i] != "pass" {
-								f = true
-							}
-							if stops(iterB[i]) {
-								break
-							}
+				for runNo := 1; runNo <= 2; runNo++ {
+					log, setupT = nil, nil
+					input := fmt.Sprintf("%s run#%d of the same combined scenario", input, runNo)
+					stats := &progress.Stats{}
+					m := metrics.NewInstance(prometheus.NewRegistry(), false, nil)
+					as := workers.NewActiveScenario(sc, m, stats, hlib.DiscardLogger(), hlib.DiscardLogrus())
+					var failedIter []bool
+					panicked, pv := hlib.Catch(func() {
+						as.Setup()
+						if as.Failed() {
+							return
 						}
-						wantFailed = append(wantFailed, f)
+						st := as.VerifNewIterationState()
+						for it := 1; it <= 2; it++ {
+							st.VerifT().Reset(fmt.Sprint(it))
+							before := stats.Total().FailedIterationDurations.Count
+							as.Run(st)
+							failedIter = append(failedIter, stats.Total().FailedIterationDurations.Count > before)
+						}
+					})
+					if panicked {
+						r.Fail("C20/escapes", "panic", fmt.Sprintf("a component's panic escaped: %v", pv), input)
+						continue
 					}
-				}
-				if strings.Join(log, " ") != strings.Join(want, " ") {
-					r.Fail("C20/order", classify(log, want), fmt.Sprintf("observed calls %v, expected %v", log, want), input)
-				}
-				if as.Failed() != setupFailed {
-					r.Fail("C20/setup-verdict", fmt.Sprint(as.Failed()), fmt.Sprintf("setup reported failed=%v, expected %v", as.Failed(), setupFailed), input)
-				}
-				if fmt.Sprint(failedIter) != fmt.Sprint(wantFailed) {
-					r.Fail("C20/iteration-verdict", "mismatch", fmt.Sprintf("iterations reported failed %v, expected %v", failedIter, wantFailed), input)
-				}
-				r.Distinct(fmt.Sprintf("n=%d setupstop=%v iterstop=%v", n, firstStop(setupB), firstStop(iterB)))
-				if code < 3 {
-					r.Sample(map[string]any{"setups": setupB, "iterations": iterB, "calls": log})
+					// reference
+					var want []string
+					setupFailed := false
+					for i := 0; i < n; i++ {
+						want = append(want, fmt.Sprintf("setup%d", i))
+						if setupB[i] != "pass" {
+							setupFailed = true
+						}
+						if stops(setupB[i]) {
+							break
+						}
+					}
+					var wantFailed []bool
+					if !setupFailed {
+						for it := 1; it <= 2; it++ {
+							f := false
+							for i := 0; i < n; i++ {
+								want = append(want, fmt.Sprintf("iter%d@%d", i, it))
+								if iterB[i] != "pass" {
+									f = true
+								}
+								if stops(iterB[i]) {
+									break
+								}
+								want = append(want, fmt.Sprintf("returned%d", i))
+							}
+							wantFailed = append(wantFailed, f)
+						}
+					}
+					if strings.Join(log, " ") != strings.Join(want, " ") {
+						r.Fail("C20/order", classify(log, want), fmt.Sprintf("observed calls %v, expected %v", log, want), input)
+					}
+					if as.Failed() != setupFailed {
+						r.Fail("C20/setup-verdict", fmt.Sprint(as.Failed()), fmt.Sprintf("setup reported failed=%v, expected %v", as.Failed(), setupFailed), input)
+					}
+					if fmt.Sprint(failedIter) != fmt.Sprint(wantFailed) {
+						r.Fail("C20/iteration-verdict", "mismatch", fmt.Sprintf("iterations reported failed %v, expected %v", failedIter, wantFailed), input)
+					}
+					r.Distinct(fmt.Sprintf("n=%d setupstop=%v iterstop=%v", n, firstStop(setupB), firstStop(iterB)))
+					if code < 3 && runNo == 1 {
+						r.Sample(map[string]any{"setups": setupB, "iterations": iterB, "calls": log})
+					}
 				}
 			}
 		}
@@ -176,6 +191,15 @@ func classify(got, want []string) string {
 	return "wrong-order"
 }
 
-func suites(string) []hlib.Suite { return []hlib.Suite{suite()} }
+func suites(tier string) []hlib.Suite {
+	if tier == "quick" {
+		return []hlib.Suite{suite(1, 2, 7), suite(3, 3, 5)}
+	}
+	return []hlib.Suite{suite(1, 3, 7), suite(4, 4, 4)}
+}
 
-func main() { hlib.EnumMain("C20", suites) }
+func main() {
+	// T.Time records into the process-wide metrics instance (f1.New initialises it)
+	metrics.Init(true)
+	hlib.EnumMain("C20", suites)
+}
